@@ -304,6 +304,7 @@ def parseRegs : Sexp → Option Regs
       -- a user registration for time.Time is only generated directly before a library re-registration:
       -- together they leave the library's own codec and schema in force (the most recent registration wins)
       | .list [.atom "usertime"] => pure { r with userTime := true }
+      | .list [.atom "usernullint"] => pure { r with userTime := true }
       | .list [.atom "lib", _] => pure { r with userTime := false }
       | _ => none
   | _ => none
